@@ -278,8 +278,43 @@ class Normalizer:
                         n.keywords = [k for k in n.keywords if k.arg in kw]
                         self.log.append(f"{f.qualname}:{n.lineno} <- positional apply_async arguments")
 
+    def _canonical_sorts(self):
+        """`v = list(e)` (or any other fresh list) immediately followed by `v.sort(key=..., reverse=...)` is `v = sorted(e, ...)`:
+        the list is fresh and nothing can observe it between the two statements."""
+        def fresh_list(e):
+            if isinstance(e, (ast.List, ast.ListComp)):
+                return e
+            if isinstance(e, ast.Call) and isinstance(e.func, ast.Name) and e.func.id in ("list", "sorted") and len(e.args) == 1 and not e.keywords:
+                return e.args[0] if e.func.id == "list" else e
+            if isinstance(e, ast.Subscript) and isinstance(e.slice, ast.Slice) and e.slice.lower is None and e.slice.upper is None and e.slice.step is None:
+                return e.value
+            return None
+        for f in self.prog.functions.values():
+            for n in ast.walk(f.node):
+                for fld in ("body", "orelse", "finalbody"):
+                    lst = getattr(n, fld, None)
+                    if not (isinstance(lst, list) and lst and isinstance(lst[0], ast.stmt)):
+                        continue
+                    i = 0
+                    while i + 1 < len(lst):
+                        a, b = lst[i], lst[i + 1]
+                        if isinstance(a, ast.Assign) and len(a.targets) == 1 and isinstance(a.targets[0], ast.Name) and isinstance(b, ast.Expr) \
+                                and isinstance(b.value, ast.Call) and isinstance(b.value.func, ast.Attribute) and b.value.func.attr == "sort" \
+                                and isinstance(b.value.func.value, ast.Name) and b.value.func.value.id == a.targets[0].id and not b.value.args \
+                                and all(k.arg in ("key", "reverse") for k in b.value.keywords):
+                            src = fresh_list(a.value)
+                            v = a.targets[0].id
+                            if src is not None and not any(isinstance(x, ast.Name) and x.id == v for k in b.value.keywords for x in ast.walk(k.value)):
+                                call = ast.Call(func=ast.Name("sorted", ast.Load()), args=[src], keywords=list(b.value.keywords))
+                                a.value = ast.fix_missing_locations(ast.copy_location(call, b.value))
+                                del lst[i + 1]
+                                self.log.append(f"{f.qualname}:{a.lineno} <- list + .sort() written as sorted()")
+                                continue
+                        i += 1
+
     def run(self):
         self._canonical_pool_calls()
+        self._canonical_sorts()
         if not self.known:
             return self
         # stand-ins for renamed reference helpers are fixed first: they stay functions
@@ -302,10 +337,9 @@ class Normalizer:
                 self.helpers[q] = f
             elif self._is_generator_helper(f):
                 self.generators[q] = f
-        if not self.helpers and not self.generators:
-            return self
-        for q, f in list(self.prog.functions.items()):
-            self._normalize_function(f)
+        if self.helpers or self.generators:
+            for q, f in list(self.prog.functions.items()):
+                self._normalize_function(f)
         for q, f in list(self.prog.functions.items()):
             if f.parent is None:
                 try:
@@ -487,6 +521,19 @@ class Normalizer:
                                 ok = False
                                 break
                             src = [j for j, s2 in enumerate(lst[:i]) if isinstance(s2, ast.Assign) and len(s2.targets) == 1 and s2.targets[0] is stores[0]]
+                            if len(src) != 1 and not drop:
+                                # the dictionary may be built once in an enclosing block (before a loop whose body makes the call):
+                                # continue in that block, at the statement that contains the call
+                                outer = None
+                                for blk in blocks(f.node):
+                                    for j2, s2 in enumerate(blk):
+                                        if isinstance(s2, ast.Assign) and len(s2.targets) == 1 and s2.targets[0] is stores[0]:
+                                            holder = [k2 for k2, s3 in enumerate(blk) if k2 > j2 and any(n_ is call for n_ in ast.walk(s3))]
+                                            if len(holder) == 1:
+                                                outer = (blk, j2, holder[0])
+                                if outer is not None:
+                                    lst, i = outer[0], outer[2]
+                                    src = [outer[1]]
                             if len(src) != 1:
                                 ok = False
                                 break
